@@ -198,11 +198,10 @@ class Evaluator:
         self.env = dict(env)
         self.folder = folder
 
+    # (module-level helper below: arithmetic over integer literals only, e.g. `1 << 4`)
     def const(self, e: ast.AST) -> Optional[int]:
         if self.folder is None:
-            if isinstance(e, ast.Constant) and isinstance(e.value, int):
-                return e.value
-            return None
+            return _literal_int(e)
         try:
             v = self.folder.fold(e)
         except Unknown:
@@ -287,3 +286,45 @@ class Evaluator:
         if isinstance(e, ast.UnaryOp) and isinstance(e.op, ast.USub):
             return self.ev(e.operand).scale(-1)
         raise Inconclusive(f"expression {txt[:60]}")
+
+
+def _literal_int(e: ast.AST, depth: int = 0) -> Optional[int]:
+    """the value of an expression built from integer literals only (`1 << 4`, `2 ** 12 - 1`); None for anything else"""
+    if depth > 8:
+        return None
+    if isinstance(e, ast.Constant):
+        return e.value if isinstance(e.value, int) and not isinstance(e.value, bool) else None
+    if isinstance(e, ast.UnaryOp) and isinstance(e.op, (ast.USub, ast.UAdd, ast.Invert)):
+        v = _literal_int(e.operand, depth + 1)
+        return None if v is None else (-v if isinstance(e.op, ast.USub) else v if isinstance(e.op, ast.UAdd) else ~v)
+    if isinstance(e, ast.BinOp):
+        a, b = _literal_int(e.left, depth + 1), _literal_int(e.right, depth + 1)
+        if a is None or b is None:
+            return None
+        op = e.op
+        try:
+            if isinstance(op, ast.Add):
+                return a + b
+            if isinstance(op, ast.Sub):
+                return a - b
+            if isinstance(op, ast.Mult):
+                return a * b
+            if isinstance(op, ast.LShift) and 0 <= b <= 256:
+                return a << b
+            if isinstance(op, ast.RShift) and b >= 0:
+                return a >> b
+            if isinstance(op, ast.Pow) and 0 <= b <= 64:
+                return a ** b
+            if isinstance(op, ast.FloorDiv) and b != 0:
+                return a // b
+            if isinstance(op, ast.Mod) and b != 0:
+                return a % b
+            if isinstance(op, ast.BitAnd):
+                return a & b
+            if isinstance(op, ast.BitOr):
+                return a | b
+            if isinstance(op, ast.BitXor):
+                return a ^ b
+        except (OverflowError, ValueError):
+            return None
+    return None
